@@ -116,6 +116,32 @@ pub fn run_history(texts: &[String], kinds: &[ReaderKind], cfg: Cfg) -> Result<E
     Ok(root)
 }
 
+/// the same history, but every step runs on a freshly spawned thread and the tree is moved between
+/// them (Element<String> is Send): thread-affine state in the library would show
+pub fn run_history_across_threads(texts: &[String], kinds: &[ReaderKind], cfg: Cfg) -> Result<Element<String>, (usize, String)> {
+    let kind = |i: usize| if kinds.is_empty() { ReaderKind::Str } else { kinds[i % kinds.len()] };
+    let first = texts[0].clone();
+    let k0 = kind(0);
+    let mut root = std::thread::Builder::new()
+        .stack_size(32 << 20)
+        .spawn(move || parse_bytes(first.as_bytes(), k0, cfg).map_err(|e| (0usize, e.to_string())))
+        .expect("spawn")
+        .join()
+        .map_err(|_| (0usize, "panic on the worker thread".to_string()))??;
+    for (i, t) in texts.iter().enumerate().skip(1) {
+        let t = t.clone();
+        let k = kind(i);
+        let moved = root;
+        root = std::thread::Builder::new()
+            .stack_size(32 << 20)
+            .spawn(move || extend_bytes(t.as_bytes(), k, cfg, moved).map_err(|e| (i, e.to_string())))
+            .expect("spawn")
+            .join()
+            .map_err(|_| (i, "panic on the worker thread".to_string()))??;
+    }
+    Ok(root)
+}
+
 pub fn opts(prefix: &str, text: &str, derive: &str, sorted: bool) -> Options {
     Options {
         text_identifier: text.to_string(),
